@@ -1141,6 +1141,89 @@ def esc3(units, R, floor=0):
     R.floor('ESC3', 'raw comparisons of name bytes with token bytes', n, floor)
 
 
+# ---- PTR1: a pointer designates something only when all of its text was used ------------------------------------------------------
+
+def ptr1(units, R, fn_name='get_item_from_pointer'):
+    """RFC 6901: a JSON pointer is the empty string or a sequence of "/token"s.  The resolver follows tokens while the text goes on
+    with '/'; when it hands back an element, nothing of the text may be left over - text that does not begin with '/' is not a
+    pointer and designates nothing.  Byte-path engine: on every path that ends in a return of something other than the constant
+    NULL, the byte under the text cursor is the terminator, or the value returned is known to be NULL on that path."""
+    from . import bytepath as bp
+    u = units['cJSON_Utils.c']
+    fn = u.functions.get(fn_name)
+    if fn is None or fn.body is None:
+        raise AnalysisBroken('PTR1: %s not found' % fn_name)
+    cursors = [p_['n'] for p_ in fn.params if u.ty(p_['ty'])['c'] == 'ptr' and 'char' in u.ty(p_['ty'])['s']]
+    if len(cursors) != 1:
+        raise AnalysisBroken('PTR1: %s has %d text parameters' % (fn_name, len(cursors)))
+    cur = cursors[0]
+    ex = bp.explore(u, fn)
+    n = 0
+    worst = None
+    for sg in ex.segments:
+        if sg.end[0] != 'return' or sg.end[1] == ('k', 0):
+            continue
+        n += 1
+        node = sg.end_node
+        rexpr = strip_casts(node.expr) if node is not None and node.expr is not None else None
+        if rexpr is None:
+            continue
+        # the value handed back is NULL on this path?
+        is_null = is_null_const(rexpr)
+        if rexpr.get('k') == 'ref':
+            for r_ in sg.rel:
+                e, truth = strip_casts(r_[0]), r_[1]
+                neg = False
+                while e.get('k') == 'un' and e['op'] == '!':
+                    neg = not neg
+                    e = strip_casts(e['e'])
+                pc = None
+                if e.get('k') == 'bin' and e['op'] in ('==', '!='):
+                    for (x, y) in ((e['l'], e['r']), (e['r'], e['l'])):
+                        if (is_null_const(y) or const_val(y) == 0) and strip_casts(x).get('k') == 'ref' and strip_casts(x)['d'] == rexpr['d']:
+                            pc = e['op']
+                elif e.get('k') == 'ref' and e['d'] == rexpr['d']:
+                    pc = '!='
+                if pc is None:
+                    continue
+                holds_nonnull = (pc == '!=') == (truth != neg) if not neg else (pc == '!=') == (not truth)
+                if not holds_nonnull:
+                    is_null = True
+        if is_null:
+            continue
+        bs = sg.bytes_at(cur) if cur in sg.readers else bp.ALL
+        if sg.start != 'entry':
+            # what is known about the byte under the cursor whenever the loop head this path starts from is reached
+            at_head = frozenset()
+            for inc in ex.segments:
+                if inc.end != ('head', sg.start):
+                    continue
+                a_ = inc.adv(cur) if cur in inc.pos else None
+                known = inc.bytes_at(cur, a_) if (a_ is not None and cur in inc.readers) else bp.ALL
+                at_head = frozenset(range(256)) if (known == bp.ALL or at_head == frozenset(range(256))) else (at_head | known)
+            if at_head != frozenset(range(256)):
+                bs = at_head if bs == bp.ALL else (frozenset(bs) & at_head)
+        left = sorted(range(1, 256)) if bs == bp.ALL else sorted(b for b in bs if b != 0)
+        if left and sg.start == 'entry' and cur not in sg.readers and not any(True for _ in ()):
+            pass
+        if left:
+            worst = worst or (node, left)
+    def ranges(vals):
+        out, i = [], 0
+        while i < len(vals):
+            j = i
+            while j + 1 < len(vals) and vals[j + 1] == vals[j] + 1:
+                j += 1
+            out.append('%d' % vals[i] if i == j else '%d..%d' % (vals[i], vals[j]))
+            i = j + 1
+        return ', '.join(out)
+    R.ob('PTR1', fn, worst[0].expr if worst else None, 'an element is handed back only when the whole pointer text was used', worst is None,
+         '%d returning paths' % n if worst is None else
+         'a path returns %s while the byte under %s can be %s: text that does not begin with \'/\' (RFC 6901: not a JSON pointer) resolves '
+         'to the element the search started from' % (expr_str(worst[0].expr)[:30], cur, ranges(worst[1])), key='consumed')
+    R.floor('PTR1', 'returning paths of the pointer resolver', n, 1)
+
+
 # ---- DIG1: digit-counting loops agree with their radix ----------------------------------------------------------------------
 
 def dig1(units, R, unit_names=('cJSON.c', 'cJSON_Utils.c')):
